@@ -267,7 +267,7 @@ func oneCase(c *kit.Case, r *kit.R) {
 	}
 
 	for op := 0; op < nOps; op++ {
-		kind := rng.Intn(20)
+		kind := rng.Intn(40)
 		switch {
 		case kind == 0: // zero-length access: performed, not judged
 			addr := pickAddr(0)
@@ -313,7 +313,7 @@ func oneCase(c *kit.Case, r *kit.R) {
 			s = s2
 			note("ckpt")
 
-		case kind < 11: // write
+		case kind < 21: // write
 			n := pickLen()
 			addr := pickAddr(n)
 			data := make([]byte, n)
